@@ -751,6 +751,37 @@ pub fn config_probes(scratch: &std::path::Path, seed: u64) -> (Option<Violation>
         c.inc("reach.reopened_under_other_config");
     }
     wait_unlocked(&path);
+    // 2b. an open attempt that names another tree height: it may be refused or it may hand back the stored tree, but the
+    // acknowledged content must still be there afterwards (checked under the original height right after)
+    {
+        let other = *rng.pick(&[1usize, 2, 4, 5, 10]);
+        match guarded(|| RLN::new(other, Cursor::new(cfg_a.clone()))) {
+            Err(pn) => return (Some(mk("config_panic", format!("open with tree height {other} instead of {depth}: {pn}"))), c),
+            Ok(Ok(r)) => {
+                drop(r);
+                c.inc("reach.opened_with_other_height");
+            }
+            Ok(Err(_)) => c.inc("reach.open_with_other_height_refused"),
+        }
+        wait_unlocked(&path);
+        let r = match guarded(|| RLN::new(depth, Cursor::new(cfg_a.clone()))) {
+            Ok(Ok(r)) => r,
+            Ok(Err(e)) => return (Some(mk("reopen_failed_after_other_height", e.to_string())), c),
+            Err(pn) => return (Some(mk("config_panic", pn)), c),
+        };
+        let mut w = Vec::new();
+        let _ = r.get_root(&mut w);
+        let mut l = Vec::new();
+        let _ = r.get_leaf(5, &mut l);
+        let mut md = Vec::new();
+        let _ = r.get_metadata(&mut md);
+        let mut r = r;
+        if w != root_a || l != fr_to_le32(&v) || md != b"cfg" || r.leaves_set() != 6 {
+            return (Some(mk("acknowledged_update_lost", format!("after an open attempt with tree height {other} the tree stored with height {depth} lost its content (leaf count {})", r.leaves_set()))), c);
+        }
+        c.inc("oracle_evaluations");
+    }
+    wait_unlocked(&path);
     // 3. invalid or unsupported configurations: a clean error, the stored tree untouched
     let bad: Vec<String> = vec![
         json!({"tree_config": {"path": p, "temporary": false, "use_compression": true}}).to_string(),
